@@ -59,6 +59,7 @@ type FS struct {
 	handles  map[*os.File]*handle
 	nextFD   int
 	FlockFn  func(fd int, how int) error
+	Flocks   []FlockRec
 	OnMutate func(fsys *FS, op, path string) // called after every mutation (snapshots)
 }
 
@@ -829,12 +830,53 @@ func Sum256(b []byte) [32]byte { return rt.Hash(b) }
 
 // ---- flock ----
 
-func Flock(fd int, how int) error {
-	if Cur.FlockFn != nil {
-		return Cur.FlockFn(fd, how)
-	}
-	return nil
+type FlockRec struct {
+	FD, How int
+	Err     error
+	LogPos  int // len(FS.Log) when the call was made
 }
+
+func Flock(fd int, how int) error {
+	f := Cur
+	var err error
+	if f.FlockFn != nil {
+		err = f.FlockFn(fd, how)
+	}
+	f.Flocks = append(f.Flocks, FlockRec{FD: fd, How: how, Err: err, LogPos: len(f.Log)})
+	return err
+}
+
+// OpenHandles counts the descriptors currently open on path.
+func (f *FS) OpenHandles(path string) int {
+	n := 0
+	for _, h := range f.handles {
+		if h.path == path && !h.closed {
+			n++
+		}
+	}
+	return n
+}
+
+// FDOf returns the descriptor number behind an *os.File (-1 if unknown).
+func (f *FS) FDOf(file *os.File) int {
+	if h := f.handles[file]; h != nil {
+		return h.id
+	}
+	return -1
+}
+
+// FDClosed reports whether descriptor fd has been closed.
+func (f *FS) FDClosed(fd int) bool {
+	for _, h := range f.handles {
+		if h.id == fd {
+			return h.closed
+		}
+	}
+	return false
+}
+
+// LastFD returns the most recently allocated descriptor number.
+func (f *FS) LastFD() int { return f.nextFD - 1 }
 
 // Stubs is the redirection table used by harness packages:
 //
